@@ -1,5 +1,9 @@
+#[cfg(not(kani))]
 use std::{collections::HashMap, convert::TryFrom};
+#[cfg(kani)]
+use {crate::helpers::vmap::HashMap, std::convert::TryFrom};
 
+#[cfg(not(any(kani, ax_verif)))]
 use rand::Rng;
 use serde::{Deserialize, Serialize};
 use wasm_bindgen::prelude::wasm_bindgen;
@@ -147,8 +151,15 @@ impl Axecutor {
 
             debug_log!("Running native pipe syscall");
 
+            #[cfg(not(any(kani, ax_verif)))]
             let read_end = rand::thread_rng().gen::<u16>() as u64 + 1024;
+            #[cfg(not(any(kani, ax_verif)))]
             let write_end = rand::thread_rng().gen::<u16>() as u64 + 1024;
+            // Verification hook H4: the RNG's contract is "an arbitrary value"
+            #[cfg(any(kani, ax_verif))]
+            let read_end = crate::helpers::vnondet::any::<u16>() as u64 + 1024;
+            #[cfg(any(kani, ax_verif))]
+            let write_end = crate::helpers::vnondet::any::<u16>() as u64 + 1024;
             assert_fatal!(
                 !ax.state.syscalls.pipes_read_ends.contains_key(&read_end),
                 "Duplicate read end for pipe"
@@ -385,3 +396,42 @@ mod tests {
     }];
 }
 */
+
+// Verification hook H5: structured view / construction of the syscall state (no effect on ordinary builds)
+#[cfg(any(kani, ax_verif))]
+impl SyscallState {
+    pub(crate) fn verif_brk(&self) -> (u64, u64) {
+        (self.brk_start, self.brk_length)
+    }
+
+    pub(crate) fn verif_set_brk(&mut self, start: u64, length: u64) {
+        self.brk_start = start;
+        self.brk_length = length;
+    }
+
+    pub(crate) fn verif_add_pipe(&mut self, read_end: u64, write_end: u64, contents: Vec<u8>) {
+        self.pipes_read_ends.insert(read_end, write_end);
+        self.pipes_write_ends.insert(write_end, read_end);
+        self.pipe_contents.insert(read_end, contents);
+    }
+
+    pub(crate) fn verif_pipe_contents(&self, read_end: u64) -> Option<&Vec<u8>> {
+        self.pipe_contents.get(&read_end)
+    }
+
+    pub(crate) fn verif_pipe_read_end_of(&self, write_end: u64) -> Option<u64> {
+        self.pipes_write_ends.get(&write_end).copied()
+    }
+
+    pub(crate) fn verif_pipe_write_end_of(&self, read_end: u64) -> Option<u64> {
+        self.pipes_read_ends.get(&read_end).copied()
+    }
+
+    pub(crate) fn verif_pipe_counts(&self) -> (usize, usize, usize) {
+        (
+            self.pipes_read_ends.len(),
+            self.pipes_write_ends.len(),
+            self.pipe_contents.len(),
+        )
+    }
+}
